@@ -17,9 +17,9 @@ for pid in sys.argv[1:]:
     for i in (1, 2, 3):
         patch = f"{od}/patch{i}.diff"
         if not os.path.exists(patch): continue
-        tag = f"{pid}-{ {'': '', '2': 'h', '3': 'e', '4': 'x', '5': 'y', '6': 'z', '7': 'w'}[PFX] }{i}"
+        tag = f"{pid}-{ {'': '', '2': 'h', '3': 'e', '4': 'x', '5': 'y', '6': 'z', '7': 'w', '8': 'v'}[PFX] }{i}"
         dest = f"/verif/seeded/{tag}"
-        rec = {"id": tag, "property": pid, "round": ({"": "first round", "2": "hard mode (second round)", "3": "expert mode (third round)", "4": "informed mode (fourth round: the agent was told what the harness already does)", "5": "informed mode, second batch (fifth round)", "6": "informed mode, third batch (sixth round)", "7": "informed mode, fourth batch (seventh round)"}[PFX]), "ran": []}
+        rec = {"id": tag, "property": pid, "round": ({"": "first round", "2": "hard mode (second round)", "3": "expert mode (third round)", "4": "informed mode (fourth round: the agent was told what the harness already does)", "5": "informed mode, second batch (fifth round)", "6": "informed mode, third batch (sixth round)", "7": "informed mode, fourth batch (seventh round)", "8": "plain mode, eighth round (property text only)"}[PFX]), "ran": []}
         try: rec.update(json.load(open(f"{od}/meta{i}.json")))
         except Exception as e: rec["meta_error"] = str(e)
         sh("git checkout -- . && git clean -fdq -e target", cwd=wt)
